@@ -591,6 +591,54 @@ pub fn respellings(r: &mut Rng, a: &IG) -> Vec<(&'static str, IG)> {
         v.push(f);
         v
     };
+    // one coordinate written twice in a row somewhere (a zero-length segment inside a line string or a ring): the same
+    // point set, and still a valid geometry for geo's own Validation
+    let rep = |r: &mut Rng, v: &Vec<IP>| -> Vec<IP> {
+        if v.is_empty() {
+            return v.clone();
+        }
+        let at = match r.below(4) {
+            0 => 0,
+            1 => v.len() - 1,
+            _ => r.below(v.len() as u64) as usize,
+        };
+        let mut w = v.clone();
+        w.insert(at, v[at]);
+        if r.chance(1, 4) {
+            w.insert(at, v[at]);
+        }
+        w
+    };
+    match a {
+        IG::LineString(v) if v.len() >= 2 => out.push(("LineString with a coordinate written twice in a row", IG::LineString(rep(r, v)))),
+        IG::MultiLineString(ms) if ms.iter().any(|m| m.len() >= 2) => {
+            let mut w = ms.clone();
+            let idx: Vec<usize> = (0..w.len()).filter(|&i| w[i].len() >= 2).collect();
+            let i = *r.pick(&idx);
+            w[i] = rep(r, &w[i]);
+            out.push(("MLS with a coordinate written twice in a row", IG::MultiLineString(w)));
+        }
+        IG::Polygon(rings) if !rings.is_empty() && rings[0].len() >= 4 => {
+            let mut w = rings.clone();
+            let i = r.below(w.len() as u64) as usize;
+            if w[i].len() >= 4 {
+                w[i] = rep(r, &w[i]);
+                out.push(("Polygon with a coordinate written twice in a row", IG::Polygon(w)));
+            }
+        }
+        IG::MultiPolygon(ms) if !ms.is_empty() => {
+            let mut w = ms.clone();
+            let m = r.below(w.len() as u64) as usize;
+            if !w[m].is_empty() && w[m][0].len() >= 4 {
+                let i = r.below(w[m].len() as u64) as usize;
+                if w[m][i].len() >= 4 {
+                    w[m][i] = rep(r, &w[m][i]);
+                    out.push(("MultiPolygon with a coordinate written twice in a row", IG::MultiPolygon(w)));
+                }
+            }
+        }
+        _ => {}
+    }
     match a {
         IG::Polygon(rings) if !rings.is_empty() => out.push(("Polygon rings from the least vertex, closing coordinate repeated", IG::Polygon(rings.iter().map(respell_ring).collect()))),
         IG::MultiPolygon(ms) if !ms.is_empty() => out.push(("MultiPolygon rings from the least vertex, closing coordinate repeated", IG::MultiPolygon(ms.iter().map(|rs| rs.iter().map(respell_ring).collect()).collect()))),
